@@ -55,6 +55,9 @@ def workloads(rng, nkeys, cap, tier):
             for c in cycles:
                 if rng.random() < 0.4:
                     ops.append({"a": "reins", "k": rng.choice(others)})
+                if rng.random() < 0.5:
+                    # a key written and removed inside one flushed batch: its tombstone must be logged all the same
+                    ops.append({"a": "insdel", "ks": [rng.choice(others) for _ in range(rng.randint(1, 3))]})
                 ops.append({"a": "del", "ks": [rng.choice(others) for _ in range(c)]})
                 ops += [{"a": "reopen"}, {"a": "probe"}]
             out.append({"ops": ops})
@@ -106,7 +109,7 @@ def unique_workloads(rng, nload, cap, tier):
 def run_device(d, blocks, block_pages, tier, seed, flushers=1):
     nkeys = 40
     os.makedirs(d, exist_ok=True)
-    p = dict(algo="fifo", shards=1, hash={1: 1}, cfg=dict(mem.DEFAULT_CFG))
+    p = dict(algo="fifo", shards=1, hash={1: 0}, cfg=dict(mem.DEFAULT_CFG))     # key 1 has hash 0 (a valid hash)
     cfg = mem.harness_cfg(d, p)
     hpath = os.path.join(d, "hcfg.json")
     with open(hpath, "w") as f:
